@@ -282,9 +282,12 @@ impl Fiber {
     if let FiberState::Blocked = self.state {
       self.state = FiberState::Pending;
     }
+  }
 
-    // a resumed fiber no longer waits on any channel. A waiter left
-    // behind would resume it again for an operation it has moved past
+  /// This fiber is resumed through its parent link, which does not take
+  /// its waiter out of the channel it waits on. A waiter left behind would
+  /// resume it again for an operation it has moved past
+  fn leave_channels(&mut self) {
     let waiter = self.waiter;
     for channel in self.channels.iter_mut() {
       channel.remove_waiter(waiter);
@@ -307,7 +310,10 @@ impl Fiber {
       .filter(|parent| {
         parent.is_pending() || (awaited && parent.is_blocked())
       })
-      .map(|parent| parent.waiter)
+      .map(|mut parent| {
+        parent.leave_channels();
+        parent.waiter
+      })
       .or_else(|| self.get_runnable());
 
     self.channels.clear();
